@@ -1,29 +1,43 @@
 /-
-  C15 (hostile input) at the BYTE level: for EVERY byte string `msg`.
+  C15 (hostile input) at the BYTE level: for every byte string THE FRONT END READS.
 
   `Props/C15.lean` proves "no run ends in `Err.panic`" for every decoded header
   and packet stream, under the hypothesis `htail` that the stream's own tail
-  error is not a panic.  `Model/Front.lean` turns ANY byte string into such a
-  stream the way the receivers' reads do (`Wire.split*` for spec-shaped input,
-  `Codec.split*` — go-codec's typed decoding with its leniencies — for the rest).
+  error is not a panic.  `Model/Front.lean` turns a byte string into such a
+  stream the way the receivers' reads do: `Codec.split*` — go-codec's typed
+  decoding, in go-codec's order, with its leniencies and its depth budget — and,
+  only where `Codec` calls the input unmodelled, the spec-shaped `Wire.split*`.
   Here the two are composed: whenever the front end reads `msg` (it does not
-  answer `unmodelled`), the receiver run on what it read never ends in a panic —
-  all keyrings, resolvers, validators admitting majors 1, 2 only.  `htail` is no
-  longer a hypothesis: every tail a front end produces is a clean end or a plain
-  decode error (`C15_front_tails_plain`).
+  answer `unmodelled` — the honest hypothesis `… = .ok r` of every theorem), the
+  receiver run on what it read never ends in a panic — all keyrings, resolvers,
+  validators admitting majors 1, 2 only.  `htail` is no longer a hypothesis:
+  every tail a front end produces is a clean end or a plain decode error
+  (`C15_front_tails_plain`).
 
-  Totality: `Front.read*`, `Decrypt.openBytes`, `Signcrypt.openBytes`,
-  `Sign.verifyBytes`, `Sign.verifyDetachedBytes` are total functions (fuel /
-  structural recursion, certified by the termination checker), and an
-  `unmodelled` answer arises only where `Wire` says unmodelled AND `Codec` gives
-  up too (`C15_front_unmodelled_only_if_both`).  Which shapes make `Codec` give
-  up (a container-typed struct field twice in map form; a generic map with a
-  repeated non-scalar key or two timestamp keys; fuel) is documented in
-  Model/Codec.lean and measured by the correspondence, not proved here.
+  What is and what is NOT proved about `unmodelled`:
+  * `Front.read*`, `Decrypt.openBytes`, … are total functions (fuel / structural
+    recursion, certified by the termination checker);
+  * `C15_front_unmodelled_def` — by definition of the front end, `unmodelled w`
+    is answered exactly when `Codec` answers `unmodelled w` and `Wire` does not
+    know the input either (an unfolding, it bounds nothing);
+  * `C15_front_reads_sealed_*` — on every genuine sender output (all four modes)
+    the front end does answer, through `Codec`, with the header and the packets
+    the sender wrote (the bridge `C09_bridge_seal_*`);
+  * `C15_blocks_unmodelled_partial` — the packet loop of `Codec.split*` itself
+    never runs out of its fuel `rest.length + 1` provided every successful packet
+    decode consumes at least one byte; under that hypothesis an `unmodelled`
+    answer of the loop is an `unmodelled` answer of one packet decode (typed or
+    generic) at some position.  PARTIAL: the progress hypothesis and the
+    provenance of `unmodelled` INSIDE the packet / header decoders (two documented
+    shapes — a container-typed struct field twice in map form; a generic map with
+    a repeated non-scalar key or two timestamp keys — and the inner fuel
+    `fuelFor b = 2·|b| + 256`) are documented in Model/Codec.lean and measured by
+    the correspondence (0.0–0.3 % of hostile inputs), not proved.
 
-  Statements only; proofs in Saltpack/Proofs/CodecBytes.lean, NoPanic.lean.
+  Statements only; proofs in Saltpack/Proofs/CodecBytes.lean, CodecBytesBridge.lean, NoPanic.lean.
 -/
 import Saltpack.Proofs.CodecBytes
+import Saltpack.Proofs.CodecBytesBridge
 import Saltpack.Toy
 
 namespace Saltpack.Props.C15
@@ -70,32 +84,114 @@ theorem C15_front_tails_plain (msg : Bytes) :
       ∀ e, sr = .none e → e = .unexpectedEOF ∨ e = .decodeError) :=
   ⟨readEnc_tail msg, readSigncrypt_tail msg, readSig_tail msg, readDetached_plain msg⟩
 
-/-- **The front end is total, and `unmodelled` needs both readers to give up**:
-    every byte string is read, or `Wire` calls it unmodelled (with the reason
-    reported) and `Codec` does not claim to know it either. -/
-theorem C15_front_unmodelled_only_if_both (msg : Bytes) :
-    ((∃ x, Front.readEnc msg = .ok x) ∨
-      ∃ w w', Front.readEnc msg = .error w ∧ Wire.splitEnc msg = .unmodelled w ∧ Codec.splitEnc msg = .error w') ∧
-    ((∃ x, Front.readSigncrypt msg = .ok x) ∨
-      ∃ w w', Front.readSigncrypt msg = .error w ∧ Wire.splitSigncrypt msg = .unmodelled w ∧
-        Codec.splitSigncrypt msg = .error w') ∧
-    ((∃ x, Front.readSig msg = .ok x) ∨
-      ∃ w w', Front.readSig msg = .error w ∧ Wire.splitSig msg = .unmodelled w ∧ Codec.splitSig msg = .error w') := by
-  refine ⟨?_, ?_, ?_⟩
-  · cases h : Front.readEnc msg with
-    | ok x => exact Or.inl ⟨x, rfl⟩
-    | error w => obtain ⟨a, w', b⟩ := orCodec_error h; exact Or.inr ⟨w, w', rfl, a, b⟩
-  · cases h : Front.readSigncrypt msg with
-    | ok x => exact Or.inl ⟨x, rfl⟩
-    | error w => obtain ⟨a, w', b⟩ := orCodec_error h; exact Or.inr ⟨w, w', rfl, a, b⟩
-  · cases h : Front.readSig msg with
-    | ok x => exact Or.inl ⟨x, rfl⟩
-    | error w => obtain ⟨a, w', b⟩ := orCodec_error h; exact Or.inr ⟨w, w', rfl, a, b⟩
+/-- **`unmodelled`, unfolded** (formerly `C15_front_unmodelled_only_if_both`).  The
+    front end answers `unmodelled w` exactly when go-codec's typed reader of the
+    model answers `unmodelled w` AND the spec-shaped reader does not know the input
+    either — for all four front ends.  This is the definition of `Front.orWire`
+    spelled out; it does not bound the set of unmodelled inputs (see the header). -/
+theorem C15_front_unmodelled_def (msg : Bytes) (w : String) :
+    (Front.readEnc msg = .error w ↔ Codec.splitEnc msg = .error w ∧ ∃ w', Wire.splitEnc msg = .unmodelled w') ∧
+    (Front.readSigncrypt msg = .error w ↔
+      Codec.splitSigncrypt msg = .error w ∧ ∃ w', Wire.splitSigncrypt msg = .unmodelled w') ∧
+    (Front.readSig msg = .error w ↔ Codec.splitSig msg = .error w ∧ ∃ w', Wire.splitSig msg = .unmodelled w') ∧
+    (Front.readDetached msg = .error w ↔
+      Codec.splitDetached msg = .error w ∧ ∃ w', Wire.splitDetached msg = .unmodelled w') := by
+  refine ⟨?_, ?_, ?_, ?_⟩
+  · unfold Front.readEnc; rw [orWire_error_iff, settle_error]
+  · unfold Front.readSigncrypt; rw [orWire_error_iff, settle_error]
+  · unfold Front.readSig; rw [orWire_error_iff, settle_error]
+  · unfold Front.readDetached; rw [orWire_error_iff, codecDetached_error]
 
-/-- where the spec-shaped reader answers, the front end is that reader -/
-theorem C15_front_is_wire_where_modelled (msg : Bytes) (x : HeaderRead EncHeader × PStream EncBlock)
-    (h : Wire.splitEnc msg = .ok x) : Front.readEnc msg = .ok x :=
-  orCodec_of_wire h
+/-- **Where go-codec's typed reader answers, the front end is that reader** (all
+    four front ends): the same header read, the same packets; the tail is the
+    typed reader's, except that behind a final packet a truncated object the typed
+    decoder refuses counts as the clean end `assertEndOfStream`'s generic read
+    reports (`Front.settle`) — in particular a stream `Codec` ends cleanly is
+    handed over unchanged. -/
+theorem C15_front_is_codec_where_modelled (msg : Bytes) :
+    (∀ hr ps, Codec.splitEnc msg = .ok (hr, ps) →
+      ∃ ps', Front.readEnc msg = .ok (hr, ps') ∧ ps'.items = ps.items ∧ (ps'.tail = ps.tail ∨ ps'.tail = .eof)) ∧
+    (∀ hr ps, Codec.splitSigncrypt msg = .ok (hr, ps) →
+      ∃ ps', Front.readSigncrypt msg = .ok (hr, ps') ∧ ps'.items = ps.items ∧ (ps'.tail = ps.tail ∨ ps'.tail = .eof)) ∧
+    (∀ hr ps, Codec.splitSig msg = .ok (hr, ps) →
+      ∃ ps', Front.readSig msg = .ok (hr, ps') ∧ ps'.items = ps.items ∧ (ps'.tail = ps.tail ∨ ps'.tail = .eof)) ∧
+    (∀ hr d, Codec.splitDetached msg = .ok (hr, d) → Front.readDetached msg = .ok (hr, Front.detSig d)) :=
+  ⟨fun _ _ h => readEnc_of_codec h, fun _ _ h => readSigncrypt_of_codec h, fun _ _ h => readSig_of_codec h,
+   fun _ _ h => orWire_of_codec (codecDetached_of_ok h)⟩
+
+/-- the spec-shaped reader is consulted only where the typed reader gives up -/
+theorem C15_front_is_wire_only_where_codec_unmodelled (msg : Bytes) (hr : HeaderRead EncHeader) (ps : PStream EncBlock)
+    (h : Front.readEnc msg = .ok (hr, ps)) :
+    (∃ ps0, Codec.splitEnc msg = .ok (hr, ps0) ∧ ps.items = ps0.items ∧ (ps.tail = ps0.tail ∨ ps.tail = .eof)) ∨
+    ∃ w, Codec.splitEnc msg = .error w ∧ Wire.splitEnc msg = .ok (hr, ps) := by
+  rcases orWire_ok h with hc | ⟨w, hc, hw⟩
+  · exact Or.inl (settle_ok hc)
+  · exact Or.inr ⟨w, settle_error.mp hc, hw⟩
+
+/-- **The packet loop never exhausts its fuel — partial.**  `Codec.split*` read
+    the packets with `Codec.blocks dec (rest.length + 1) rest`.  If every
+    successful packet decode consumes at least one byte (`hprog`; true of every
+    packet decoder of the model — each starts by reading a descriptor byte — but
+    not proved here: it needs "a decoder never gives bytes back" for every
+    primitive), then with fuel beyond the input length the loop answers
+    `unmodelled w` only because ONE packet decode — the typed one, or the generic
+    one tried at the same position after a typed decode error — answered
+    `unmodelled w` on a suffix reached by successful typed decodes. -/
+theorem C15_blocks_unmodelled_partial {β : Type} (dec : Codec.Dec β)
+    (hprog : ∀ b x r, dec b = .ok (x, r) → r.length < b.length) :
+    ∀ (fuel : Nat) (b : Bytes) (w : String), b.length < fuel → Codec.blocks dec fuel b = .error w →
+      ∃ b' : Bytes, b'.length ≤ b.length ∧
+        (dec b' = .error (.unmodelled w) ∨ (∃ why, dec b' = .error (.err why)) ∧ Codec.generic b' = .error (.unmodelled w)) :=
+  blocks_unmodelled_provenance dec hprog
+
+/-- non-vacuity of `hprog`: a decoder that takes one byte per packet -/
+example : ∀ (fuel : Nat) (b : Bytes) (w : String), b.length < fuel →
+    Codec.blocks (fun b => match b with | [] => .error .eof | x :: r => .ok (x, r)) fuel b ≠ .error w := by
+  intro fuel b w hf h
+  obtain ⟨b', _, hb'⟩ := C15_blocks_unmodelled_partial
+    (fun b => match b with | [] => .error .eof | x :: r => .ok (x, r))
+    (by intro b x r h; cases b with
+        | nil => cases h
+        | cons y t => cases h; simp) fuel b w hf h
+  rcases hb' with h1 | ⟨⟨why, h1⟩, _⟩ <;> (cases b' <;> cases h1)
+
+/-- **Genuine sender output is read** (never `unmodelled`), by go-codec's typed
+    reader, as the header and the packets the sender wrote — encryption.
+    (Hypotheses: those of the bridge `C09_bridge_seal_enc`.) -/
+theorem C15_front_reads_sealed_enc (P : Prims) (hS : WireSizes P) (bs : Nat) (hbs : 0 < bs) (hbs32 : bs + 16 < 2 ^ 32)
+    (v : Version) (sender : Option Bytes) (rs : List Encrypt.Recipient) (eph pk pt : Bytes)
+    (hpk : pk.length + 16 < 2 ^ 32) (hpub : ∀ r ∈ rs, r.pub.length < 2 ^ 32)
+    (h : EncHeader) (hb : Bytes) (blks : List EncBlock) (body : Bytes)
+    (hs : Encrypt.sealPackets P bs v sender rs eph pk pt = .ok (h, hb, blks))
+    (he : Encrypt.encodeBlocks v blks = .ok body) (hhb : hb.length < 2 ^ 32) :
+    Front.readEnc (headerPacket hb ++ body) = .ok (.ok hb h, ⟨(blks.map (encAsRead v)).map some, .eof⟩) :=
+  readEnc_of_codec_eof (CodecP.bridge_seal_enc P hS bs hbs hbs32 v sender rs eph pk pt hpk hpub h hb blks body hs he hhb).2
+
+/-- … signcryption -/
+theorem C15_front_reads_sealed_signcrypt (P : Prims) (hS : WireSizes P) (bs : Nat) (hbs : 0 < bs)
+    (hbs32 : bs + 80 < 2 ^ 32) (sender : Option Bytes) (rs : List Signcrypt.Recipient) (eph pk pt : Bytes)
+    (hpk : pk.length + 16 < 2 ^ 32)
+    (hid : ∀ key ident, Signcrypt.Recipient.sym key ident ∈ rs → ident.length < 2 ^ 32)
+    (h : EncHeader) (hb : Bytes) (blks : List SigncryptBlock)
+    (hs : Signcrypt.sealPackets P bs sender rs eph pk pt = .ok (h, hb, blks)) (hhb : hb.length < 2 ^ 32) :
+    Front.readSigncrypt (headerPacket hb ++ Signcrypt.encodeBlocks blks) = .ok (.ok hb h, ⟨blks.map some, .eof⟩) :=
+  readSigncrypt_of_codec_eof (CodecP.bridge_seal_signcrypt P hS bs hbs hbs32 sender rs eph pk pt hpk hid h hb blks hs hhb).2
+
+/-- … attached signatures -/
+theorem C15_front_reads_sealed_sig (P : Prims) (hS : WireSizes P) (bs : Nat) (hbs : 0 < bs) (hbs32 : bs < 2 ^ 32)
+    (v : Version) (signer nonce msg : Bytes) (hn : nonce.length + 92 < 2 ^ 32)
+    (h : SigHeader) (hb : Bytes) (blks : List SigBlock) (body : Bytes)
+    (hs : Sign.attachedPackets P bs v signer nonce msg = .ok (h, hb, blks))
+    (he : Sign.encodeBlocks v blks = .ok body) :
+    Front.readSig (headerPacket hb ++ body) = .ok (.ok hb h, ⟨(blks.map (sigAsRead v)).map some, .eof⟩) :=
+  readSig_of_codec_eof (CodecP.bridge_seal_sig P hS bs hbs hbs32 v signer nonce msg hn h hb blks body hs he).2
+
+/-- … detached signatures -/
+theorem C15_front_reads_sealed_detached (P : Prims) (hS : WireSizes P) (v : Version) (signer nonce msg out : Bytes)
+    (hn : nonce.length + 92 < 2 ^ 32) (hout : Sign.detachedWith P v signer nonce msg = .ok out) :
+    ∃ hb h sg, Front.readDetached out = .ok (.ok hb h, .sig sg) := by
+  obtain ⟨hb, h, sg, _, hc⟩ := CodecP.bridge_seal_detached P hS v signer nonce msg out hn hout
+  exact ⟨hb, h, sg, orWire_of_codec (codecDetached_of_ok hc)⟩
 
 /-! ## a concrete hostile byte string (kernel-evaluated)
 
@@ -104,7 +200,7 @@ theorem C15_front_is_wire_where_modelled (msg : Bytes) (x : HeaderRead EncHeader
   go-codec reads as the 4 flat elements `true, bin[09], bin[41], 7` of the V2
   block (`final`, `signature`, `payload_chunk`, one surplus element swallowed).
   The spec-shaped reader calls it unmodelled; the front end reads it through
-  `Codec`; the verifier refuses the signature — an error, no panic. -/
+  `Codec` (its primary reader); the verifier refuses the signature — an error, no panic. -/
 
 def hostileSigMsg : Bytes :=
   headerPacket (Msgpack.encode (Sign.header v2 [1] mtAttached [2]).toVal) ++
